@@ -59,6 +59,7 @@ func VH_C02_resync() {
 	m.MkFile(src+"/d/f", v.Bytes("f", 1), 0644, 1, 1, vh_mtimes()[0])
 	m.MkFile(src+"/e", v.Bytes("e", 1), ePerm, 2, 2, vh_mtimes()[0])
 	m.MkSymlink(src+"/l", "e", 1, 1, vh_mtimes()[0])
+	m.MkNode(src+"/n", m.KChar, 0600, 0x10012c, 1, 1, vh_mtimes()[0]) // a character device 1:300 (minor beyond 8 bits)
 	m.SetMtime(src+"/d", vh_mtimes()[1])
 	nFiles := 2
 	if v.Bool("listing-name-file") {
